@@ -319,6 +319,7 @@ def run_c08(ctx):
     merge_partial_fields_stream(ctx, 150 if q else 4000, merge)
     merge_narrow_index_stream(ctx, 10 if q else 200, merge)
     merge_geometry_stream(ctx, 120 if q else 3000, merge)
+    merge_many_stream(ctx, 100 if q else 3000, merge)
     vals = ctx.coq_eval(HEADER, exprs, name="c08chk")
     for (kind, canon, pmap), v in zip(metas, vals):
         ctx.tie(f"T3 {kind}")
@@ -540,6 +541,89 @@ def merge_geometry_stream(ctx, n, merge):
         ctx.traces_validated += 1
 
 
+def merge_many_stream(ctx, n, merge):
+    """merge() handed three to seven pieces in ONE call (the pieces of a decomposed mesh, each with exactly its own points):
+    the merged data set must hold every cell of every piece (type, corner coordinates, cell-field values) and, with duplicate
+    points removed, exactly the connected points of the whole mesh with their values"""
+    rng = ctx.rng
+    todo = []
+    for f in sorted((lib.VERIF / "corpus" / "C08").glob("found-merge-many*.json")):
+        c = json.loads(f.read_text())["case"]
+        todo.append(([restore_mesh(x) for x in c["pieces"]], c["remove_duplicate_points"], "corpus"))
+    done = tries = 0
+    while done < n and tries < 20 * n:
+        tries += 1
+        M = G.add_fields(rng, G.gen_mesh(rng, max_cells=9), kinds=("scalar", "vector", "int"))
+        cells_ = [(t, j) for t, rows in M["blocks"] for j in range(len(rows))]
+        if len(cells_) < 3 or G.has_coincident_points(M):
+            continue
+        k = rng.randint(3, min(7, len(cells_)))
+        rng.shuffle(cells_)
+        assign = {c: (i if i < k else rng.randrange(k)) for i, c in enumerate(cells_)}      # every piece owns a cell
+        pieces = [{"dim": M["dim"], "pts": [], "blocks": [], "pf": {nm: [] for nm in M["pf"]}, "cf": {}} for _ in range(k)]
+        local = [{} for _ in range(k)]
+        for t, rows in M["blocks"]:
+            for i in range(k):
+                sel = [j for j in range(len(rows)) if assign[(t, j)] == i]
+                if not sel:
+                    continue
+                newrows = []
+                for j in sel:
+                    r = []
+                    for c in rows[j]:
+                        if c not in local[i]:
+                            local[i][c] = len(pieces[i]["pts"])
+                            pieces[i]["pts"].append(M["pts"][c])
+                            for nm in M["pf"]:
+                                pieces[i]["pf"][nm].append(M["pf"][nm][c])
+                        r.append(local[i][c])
+                    newrows.append(r)
+                pieces[i]["blocks"].append([t, newrows])
+                for nm, per in M["cf"].items():
+                    pieces[i]["cf"].setdefault(nm, {})[t] = [per[t][j] for j in sel]
+        done += 1
+        todo.append((pieces, rng.random() < 0.8, "generated"))
+    for pieces, dedup, origin in todo:
+        k = len(pieces)
+        canon = {"kind": "merge_many", "pieces": [json_mesh(P) for P in pieces], "remove_duplicate_points": dedup}
+        try:
+            with quiet():
+                warnings.simplefilter("ignore")
+                fs = [G.to_fieldcompare(P) for P in pieces]
+                got = G.content(G.from_fieldcompare(merge(*fs, remove_duplicate_points=dedup)))
+                per_piece = [G.content(P) for P in pieces]
+        except Exception as e:  # noqa: BLE001
+            ctx.case(canon, True)
+            ctx.violation("E4", f"merge of {k} pieces raised {type(e).__name__}: {e}", canon)
+            continue
+        want_cells = sorted(c for pc in per_piece for c in pc[1])
+        want_points = sorted(set(p for pc in per_piece for p in pc[0]))      # shared points carry the same values in every piece
+        ctx.case(canon, True, sample={"pieces": k, "remove_duplicate_points": dedup, "origin": origin,
+                                      "cells": [sum(len(r) for _, r in P["blocks"]) for P in pieces]})
+        ctx.count(f"c08:merge of {k} pieces in one call")
+        # pieces all of whose points already exist in the pieces before them (open finding F-C06a: merge drops their cells)
+        seen, nofresh = set(), []
+        for i, P in enumerate(pieces):
+            own = {tuple(pt) for pt in P["pts"]}
+            if i > 0 and own <= seen:
+                nofresh.append(i)
+            seen |= own
+        if nofresh:
+            ctx.count("c08:merge of several pieces, some piece without new points")
+        if want_cells != got[1]:
+            kept = sorted(c for i, pc in enumerate(per_piece) if i not in nofresh for c in pc[1])
+            if nofresh and dedup and kept == got[1]:
+                ctx.violation("E4", f"F-C06a (seen through C08) merge of {k} pieces: exactly the cells of the pieces {nofresh}, which "
+                                    "contribute no new point, are missing from the merged data set", canon, pieces_without_new_points=nofresh)
+            else:
+                ctx.violation("E4", f"merge of {k} pieces in one call loses or alters cells: {len(got[1])} cells after, {len(want_cells)} "
+                                    "in the pieces", canon)
+        elif dedup and want_points != got[0]:
+            ctx.violation("E4", f"merge of {k} pieces in one call (duplicate points removed) does not hold exactly the connected points "
+                                "of the pieces with their values", canon)
+        ctx.traces_validated += 1
+
+
 def merge_narrow_index_stream(ctx, n, merge):
     """two polyline pieces whose connectivity is stored in a narrow integer type (each piece is small enough for it, the merged
     point count is not): the merged cells still connect the same coordinates"""
@@ -643,12 +727,13 @@ def ladder(src, ref, disable_reorder=False, disable_orphans=False, disable_dim=F
     return False, stages
 
 
-def compare_impl(src, ref, **kw):
+def compare_impl(src, ref, predicate_selector=None, **kw):
     from fieldcompare.mesh import MeshFieldsComparator
     msgs = []
+    call_kw = {"predicate_selector": predicate_selector} if predicate_selector else {}
     with quiet():
         warnings.simplefilter("ignore")
-        suite = MeshFieldsComparator(src, ref, **kw)(fieldcomp_callback=lambda c: None, reordering_callback=msgs.append)
+        suite = MeshFieldsComparator(src, ref, **kw)(fieldcomp_callback=lambda c: None, reordering_callback=msgs.append, **call_kw)
     stage = 0
     for m in msgs:
         for key, idx in (("extended points", 1), ("sorted points", 2), ("sorted cells", 3)):
@@ -798,6 +883,7 @@ def run_c02(ctx):
             except Exception as e:  # noqa: BLE001
                 ctx.violation("E4", f"sort raised {type(e).__name__}: {e}", canon)
         ctx.traces_validated += 1
+    structured_vs_permuted_stream(ctx, 80 if q else 2500)
     run_stage_batch(ctx, stage_batch)
     run_sort_checkers(ctx, sort_batch)
     run_noisy_checkers(ctx, noisy_batch)
@@ -805,6 +891,47 @@ def run_c02(ctx):
                 "optional orphan points on either side, coincident points (discontinuous meshes), coordinate noise <= tol/2000 on "
                 "both sides; 1d/2d/3d and 2d-in-3d meshes of lines, triangles, quads, pixels, polygons, tets, hexes, voxels; "
                 "lattice / sheared / jittered coordinates, scales 2^-20..2^20 with offsets. non-trivial = at least 2 cells")
+
+
+def structured_vs_permuted_stream(ctx, n):
+    """the same lattice held as a structured mesh (image / rectilinear / structured grid, as the .vti/.vtr/.vts readers hand
+    it out) on one side and as an unstructured mesh with points, cells and type blocks stored in another order on the other:
+    domains equal and every field passed, in both roles"""
+    from fieldcompare.mesh import MeshFields
+    rng = ctx.rng
+    for _ in range(n):
+        meta, a, _b, _P1, _P2 = structured_variants(rng)
+        if max(meta["extents"]) > 8:
+            continue
+        npts = len(np.asarray(a.points))
+        ncells = sum(len(a.connectivity(ct)) for ct in a.cell_types)
+        pd = {"p": np.array([float(rng.randint(-64, 64)) / 8 for _ in range(npts)]),
+              "v": np.array([[float(rng.randint(-64, 64)) / 8 for _ in range(3)] for _ in range(npts)])}
+        cd = {"c": [np.array([float(rng.randint(-64, 64)) / 8 for _ in range(ncells)])]}
+        S = MeshFields(a, pd, cd)
+        M = G.from_fieldcompare(S)
+        how = rng.choice(["all", "all", "points", "cells"])
+        N = G.relabel(rng, M, points=how != "cells", cells=how != "points")[0]
+        if rng.random() < 0.3:
+            N = G.add_orphans(rng, N)
+        role = rng.choice(["structured_is_source", "structured_is_reference"])
+        canon = {"kind": "structured_vs_permuted", "structured": meta, "explicit": json_mesh(N), "role": role, "reordered": how}
+        try:
+            with quiet():
+                warnings.simplefilter("ignore")
+                U = G.to_fieldcompare(N)
+                res = compare_impl(S, U) if role == "structured_is_source" else compare_impl(U, S)
+        except Exception as e:  # noqa: BLE001
+            ctx.case(canon, True)
+            ctx.violation("E4", f"comparison of a structured mesh with its reordered unstructured copy raised {type(e).__name__}: {e}", canon)
+            continue
+        ctx.case(canon, ncells >= 2, sample={"case": canon, "impl": res})
+        ctx.count(f"c02:structured_vs_permuted:{meta['kind']}:{role}")
+        bad_fields = [f for f in res["fields"] if f[1] != "passed"]
+        if not res["domain"] or bad_fields:
+            ctx.violation("E4", "a structured mesh and its reordered unstructured copy do not pass: "
+                          + ("domains reported unequal" if not res["domain"] else f"fields {bad_fields[:3]}"), canon, impl=res)
+        ctx.traces_validated += 1
 
 
 def run_sort_checkers(ctx, batch):
@@ -1040,12 +1167,82 @@ def run_c03(ctx):
     changed_in_place_stream(ctx, 60 if q else 1500)
     structured_modification_stream(ctx, 150 if q else 4000)
     compat_twins_stream(ctx, 60 if q else 1500)
+    erroring_comparison_stream(ctx, 60 if q else 1500)
     run_stage_batch(ctx, stage_batch)
     run_ladder_batch(ctx, ladder_batch)
     ctx.rule = ("meshes as in C02 with exactly one single-site modification on one side (move a point along one axis by 16..1e6 "
                 "tolerances, rewire one corner, remove one cell, drop a whole cell-type block, change one point/cell field entry), "
                 "at EVERY site for small meshes and random sites otherwise, with and without relabeling, in both roles, with the "
                 "disable_* options; modifications that leave the exact content unchanged carry no requirement")
+
+
+def erroring_comparison_stream(ctx, n):
+    """a deviating field whose comparison does not end in a negative answer but in an error (the predicate raises, as
+    numpy.testing-style predicates do; the value array became text; a fuzzy predicate is selected for a boolean field): the
+    suite must fail all the same (C03 mechanism: 'suite fails if the domain check fails or any comparison failed/errored')"""
+    from fieldcompare.predicates import FuzzyEquality
+    rng = ctx.rng
+    for it in range(n):
+        M = G.add_fields(rng, G.gen_mesh(rng, max_cells=5), kinds=("scalar", "vector"))
+        N = G.copy_mesh(M)
+        names = sorted(M["pf"])
+        if not names:
+            continue
+        name = rng.choice(names)
+        i = rng.randrange(len(M["pts"]))
+        kind = rng.choice(["raising_predicate", "text_values", "fuzzy_on_bool"])
+        role = rng.choice(["mod_is_source", "mod_is_reference"])
+        reorder = rng.random() < 0.5
+        extra_m, extra_n, kw = None, None, {}
+        if kind == "raising_predicate":
+            N["pf"][name][i] = bump(N["pf"][name][i])
+
+            def sel(_s, _r):
+                def pred(a, b):
+                    np.testing.assert_allclose(np.asarray(a, dtype=float), np.asarray(b, dtype=float), rtol=1e-9, atol=0)
+                    return FuzzyEquality(rel_tol=1e-9, abs_tol=0.0)(a, b)
+                return pred
+            kw["predicate_selector"] = sel
+        elif kind == "text_values":
+            vals = [str(float(rng.randint(-9, 9))) for _ in M["pts"]]
+            bad = list(vals)
+            bad[i] = "n/a"
+            extra_m = {"txt": np.array([float(v) for v in vals])}
+            extra_n = {"txt": np.array(bad)}
+        else:
+            flags = [rng.random() < 0.5 for _ in M["pts"]]
+            other = list(flags)
+            other[i] = not other[i]
+            extra_m = {"flag": np.array(flags, dtype=bool)}
+            extra_n = {"flag": np.array(other, dtype=bool)}
+            kw["predicate_selector"] = lambda _s, _r: FuzzyEquality(rel_tol=1e-9, abs_tol=0.0)
+        perm = None
+        Nr = N
+        if reorder:
+            Nr, perm, _ = G.relabel(rng, N)
+            if extra_n:
+                extra_n = {k: v[perm] for k, v in extra_n.items()}
+        canon = {"kind": "erroring_comparison", "how": kind, "mesh": json_mesh(M), "modified": json_mesh(Nr), "field": name, "entry": i,
+                 "role": role, "reordered": reorder}
+        try:
+            with quiet():
+                warnings.simplefilter("ignore")
+                fm, fn = G.to_fieldcompare(M, extra_point=extra_m), G.to_fieldcompare(Nr, extra_point=extra_n)
+                A, B = (fn, fm) if role == "mod_is_source" else (fm, fn)
+                res = compare_impl(A, B, **kw)
+        except Exception as e:  # noqa: BLE001
+            if "duplicate" in str(e):
+                continue
+            ctx.case(canon, True)
+            ctx.violation("E4", f"comparison raised {type(e).__name__}: {e} instead of failing", canon)
+            continue
+        ctx.case(canon, True, sample={"case": {"how": kind, "role": role, "reordered": reorder}, "impl": res})
+        stat = sorted({st for _, st in res["fields"]})
+        ctx.count(f"c03:erroring_comparison:{kind}:statuses={'/'.join(stat)}")
+        if res["bool"]:
+            ctx.violation("E4", f"comparison PASSES although a deviating field's comparison ended in an error ({kind}; statuses "
+                                f"{res['fields']})", canon, impl=res)
+        ctx.traces_validated += 1
 
 
 def reused_reference_stream(ctx, n):
